@@ -180,6 +180,8 @@ pub(crate) enum InnerError {
     IllegalStateMeta { backtrace: Backtrace },
     /// Illegal state for the requested operation: basic offset table has already been read
     IllegalStateInPixel { backtrace: Backtrace },
+    /// Illegal state for the requested operation: the data source was lost in a previous failure
+    IllegalStateNoSource { backtrace: Backtrace },
     /// DICOM value not found after non-empty element header
     MissingElementValue { backtrace: Backtrace },
     /// Unrecognized transfer syntax {ts_uid}
@@ -428,9 +430,12 @@ where
         matches!(self, CollectionSource::Parser(_))
     }
 
-    fn raw_reader_mut(&mut self) -> &mut S {
+    fn raw_reader_mut(&mut self) -> Result<&mut S> {
         match self {
-            CollectionSource::Raw { reader, .. } => reader.as_mut().unwrap(),
+            CollectionSource::Raw { reader, .. } => reader
+                .as_mut()
+                .context(IllegalStateNoSourceSnafu)
+                .map_err(From::from),
             CollectionSource::Parser(_) => {
                 panic!("cannot retrieve raw reader after setting parser")
             }
@@ -448,14 +453,15 @@ where
                 odd_length,
                 charset_override,
             } => {
-                let src = src.take().unwrap();
-
                 // look up transfer syntax
+                // (before taking the source, which must survive this failure)
                 let ts = ts_index
                     .get(ts_uid)
                     .context(UnrecognizedTransferSyntaxSnafu {
                         ts_uid: ts_uid.to_string(),
                     })?;
+
+                let src = src.take().context(IllegalStateNoSourceSnafu)?;
 
                 let mut options = LazyDataSetReaderOptions::default();
                 options.odd_length = *odd_length;
@@ -672,7 +678,7 @@ where
             return Ok(None);
         }
 
-        let reader = self.source.raw_reader_mut();
+        let reader = self.source.raw_reader_mut()?;
         let preamble = {
             if self.read_preamble == ReadPreamble::Always {
                 // always assume that there is a preamble
@@ -730,7 +736,7 @@ where
         }
 
         if self.state == CollectorState::Preamble {
-            let reader = self.source.raw_reader_mut();
+            let reader = self.source.raw_reader_mut()?;
             self.file_meta = Some(FileMetaTable::from_reader(reader).context(BuildMetaTableSnafu)?);
 
             self.state = CollectorState::FileMeta;
